@@ -1,4 +1,4 @@
-use std::{future::Future, io, mem::ManuallyDrop, path::Path};
+use std::{future::Future, io, path::Path};
 
 use compio_buf::{BufResult, IntoInner, IoBuf, IoBufMut};
 #[cfg(unix)]
@@ -92,16 +92,11 @@ impl File {
     /// It's OK to drop the [`File`] directly without calling `close`, but the
     /// file may not be closed immediately.
     pub fn close(self) -> impl Future<Output = io::Result<()>> {
-        // Make sure that fd won't be dropped after `close` called.
         // Users may call this method and drop the future immediately. In that way
-        // `close` should be cancelled.
-        let this = ManuallyDrop::new(self);
+        // `close` should be cancelled: the handle moved into the future is dropped
+        // like any other handle.
         async move {
-            let fd = ManuallyDrop::into_inner(this)
-                .inner
-                .into_inner()
-                .take()
-                .await;
+            let fd = self.inner.into_inner().take().await;
             if let Some(fd) = fd {
                 let op = CloseFile::new(fd.into());
                 compio_runtime::submit(op).await.0?;
